@@ -6,8 +6,7 @@ V="$(cd "$(dirname "$0")/.." && pwd)"
 R="${1:-/repo}"; [ $# -gt 0 ] && shift
 cd "$V"
 if [ "$R" != "/repo" ]; then
-  sed -i "s#path = \"/repo\"#path = \"$R\"#" harness/Cargo.toml
-  export VERIF_REPO="$R"
+  export VERIF_REPO="$R"      # build products of such a run live under build/alt/<hash> (tools/vlib.py)
 fi
 SEEDS="$*"; [ -z "$SEEDS" ] && SEEDS=$(ls seeded)
 for s in $SEEDS; do
